@@ -114,6 +114,7 @@ pub fn worker_dispatch(args: &[String]) {
     match kind {
         "c29" => c29::worker(&args[1..]),
         "c06" => c06::worker(&args[1..]),
+        "c07" => c07::worker(&args[1..]),
         "c19" => c19::worker(&args[1..]),
         "c20" => c20::worker(&args[1..]),
         _ => {
